@@ -66,10 +66,13 @@ type c21Backup struct {
 	Tables   bool // sql only: restrict to acct_a and the two version tables
 	AfterMs  int  // pause before this backup
 	Hook     bool // destination triggers commits + Store.Snapshot(0) on its first Write
+	FailMode int  // 0: destination never fails; 1: fails after a fraction FailPm/1000 of the stream; 2: fails FailTail bytes before its end
+	FailPm   int
+	FailTail int
 }
 
 func (b c21Backup) String() string {
-	return fmt.Sprintf("%s vacuum=%v gz=%v leader=%v file=%v tables=%v hook=%v", b.Format, b.Vacuum, b.Compress, b.Leader, b.ToFile, b.Tables, b.Hook)
+	return fmt.Sprintf("%s vacuum=%v gz=%v leader=%v file=%v tables=%v hook=%v fail=%d/%d/%d", b.Format, b.Vacuum, b.Compress, b.Leader, b.ToFile, b.Tables, b.Hook, b.FailMode, b.FailPm, b.FailTail)
 }
 
 func (b c21Backup) req() *proto.BackupRequest {
@@ -124,7 +127,14 @@ func c21Gen(rt *rapid.T) c21Case {
 		}
 		b.AfterMs = rapid.IntRange(0, 15).Draw(rt, "afterMs")
 		if !b.ToFile {
-			b.Hook = rapid.Bool().Draw(rt, "hook")
+			switch rapid.IntRange(0, 4).Draw(rt, "dest") {
+			case 0, 1:
+				b.Hook = true
+			case 2:
+				b.FailMode, b.FailPm = 1, rapid.IntRange(0, 999).Draw(rt, "failPm")
+			case 3:
+				b.FailMode, b.FailTail = 2, rapid.IntRange(1, 64).Draw(rt, "failTail")
+			}
 		}
 		c.Backups = append(c.Backups, b)
 	}
@@ -226,6 +236,31 @@ func c21Content(db *sql.DB, restricted bool) (map[string][]string, error) {
 	return out, nil
 }
 
+// c21FailWriter accepts limit bytes and then fails every Write.
+type c21FailWriter struct {
+	buf    bytes.Buffer
+	limit  int
+	failed bool
+}
+
+func (w *c21FailWriter) Write(p []byte) (int, error) {
+	room := w.limit - w.buf.Len()
+	if room >= len(p) {
+		return w.buf.Write(p)
+	}
+	w.failed = true
+	if room > 0 {
+		w.buf.Write(p[:room])
+	} else {
+		room = 0
+	}
+	return room, fmt.Errorf("c21: destination full after %d bytes", w.limit)
+}
+
+type c21CountWriter struct{ n int }
+
+func (w *c21CountWriter) Write(p []byte) (int, error) { w.n += len(p); return len(p), nil }
+
 // c21HookWriter runs hook once, on the first Write.
 type c21HookWriter struct {
 	buf  bytes.Buffer
@@ -299,7 +334,7 @@ func c21Open(dir string, b c21Backup, data []byte) (*sql.DB, string, error) {
 
 func TestVerif_C21_Local(t *testing.T) {
 	rec := vstat.New(t, "C21", "local",
-		"real single-node Store; writer goroutine issuing a generated list of transfer transactions (acct_a -> acct_b, version counter in ver_a and ver_b) over tables of {5,50,400,1500} rows x padding {0,40,300} bytes; 3..7 (thorough ..14) backups per case in generated format {binary,delete,sql} x vacuum x compress x leader flag x destination {buffer,file,hooked writer that lets commits land and calls Store.Snapshot mid-copy} x table list; row keys from negative through 0 to positive, a WITHOUT ROWID table, a rowid table with non-positive and sparse rowids; complete content compared; with forced raft snapshots every {never,20,60} entries; non-trivial = at least one successful backup was taken while the writer committed something between its start and end; distinct by (rows,pad,snap,backup list,first transfers)")
+		"real single-node Store; writer goroutine issuing a generated list of transfer transactions (acct_a -> acct_b, version counter in ver_a and ver_b) over tables of {5,50,400,1500} rows x padding {0,40,300} bytes; 3..7 (thorough ..14) backups per case in generated format {binary,delete,sql} x vacuum x compress x leader flag x destination {buffer,file,hooked writer that lets commits land and calls Store.Snapshot mid-copy, writer that fails after a generated fraction of the stream or 1..64 bytes before its end} x table list; row keys from negative through 0 to positive, a WITHOUT ROWID table, a rowid table with non-positive and sparse rowids; complete content compared; with forced raft snapshots every {never,20,60} entries; non-trivial = at least one successful backup was taken while the writer committed something between its start and end; distinct by (rows,pad,snap,backup list,first transfers)")
 	rapid.Check(t, func(rt *rapid.T) {
 		c := c21Gen(rt)
 		dir, err := os.MkdirTemp("", "c21-")
@@ -399,6 +434,39 @@ func TestVerif_C21_Local(t *testing.T) {
 					}
 				}
 				os.Remove(f.Name())
+			} else if b.FailMode != 0 {
+				// measure the stream, then let the destination fail inside it
+				cw := &c21CountWriter{}
+				if err := s.Backup(context.Background(), b.req(), cw); err != nil {
+					rec.Label("backup-error")
+					rec.Label("backup-error/" + b.Format)
+					continue
+				}
+				limit := cw.n * b.FailPm / 1000
+				if b.FailMode == 2 {
+					limit = cw.n - b.FailTail
+				}
+				if limit < 0 {
+					limit = 0
+				}
+				fw := &c21FailWriter{limit: limit}
+				ackedBefore = int(acked.Load())
+				berr = s.Backup(context.Background(), b.req(), fw)
+				data = fw.buf.Bytes()
+				if fw.failed {
+					rec.Label("destination-failed/" + b.Format)
+					if berr == nil {
+						sig := "C21/destination-failure-reported-ok/" + b.Format
+						if b.Compress {
+							sig += "/compressed"
+						}
+						fail(sig, "Store.Backup returns nil although the destination writer failed",
+							"backup #%d (%s) rows=%d pad=%d: the destination failed after %d of about %d bytes but Backup returned nil (%d bytes written)", bi+1, b, c.Rows, c.Pad, limit, cw.n, len(data))
+						return
+					}
+					rec.Label("destination-failure-reported")
+					continue
+				}
 			} else if b.Hook {
 				hw := &c21HookWriter{}
 				hw.hook = func() {
